@@ -46,7 +46,13 @@ Definition slice (t : text) (s e : N) : option (text * text) :=
 
 (** * case *)
 Definition is_upper (c : char) : bool := (65 <=? c)%N && (c <=? 90)%N.
-Definition fold_ascii (c : char) : char := if is_upper c then (c + 32)%N else c.
+(** simple case folding as the regex crate's (?i) applies it, on the characters the checks use:
+    ASCII letters, Latin-1 letters (U+00C0..U+00DE except the multiplication sign), KELVIN SIGN *)
+Definition fold_ascii (c : char) : char :=
+  if is_upper c then (c + 32)%N
+  else if (192 <=? c)%N && (c <=? 222)%N && negb (c =? 215)%N then (c + 32)%N
+  else if (c =? 8490)%N then 107%N
+  else c.
 Definition contains_upper (t : text) : bool := existsb is_upper t.
 Definition case_sensitive (cm : casem) (pat : text) : bool :=
   match cm with Respect => true | Ignore => false | Smart => contains_upper pat end.
